@@ -28,20 +28,32 @@ Proof.
   apply in_map. apply In_bools.
 Qed.
 
+Lemma check_upto_sound : forall b, check_upto b = true ->
+  forall Y, In Y (layouts_upto b) -> self_neighbour Y = false -> wf (make_graph Y).
+Proof.
+  intros b C Y HY HS. unfold check_upto in C. rewrite forallb_forall in C. specialize (C Y HY).
+  unfold check_layout in C. rewrite HS in C. simpl in C. apply wf_check_sound; auto.
+Qed.
+
+Lemma no_self : forall x y z px py pz, (px = true -> x <> 1) -> (py = true -> y <> 1) -> (pz = true -> z <> 1) ->
+  self_neighbour (mkLayout x y z px py pz) = false.
+Proof.
+  intros x y z px py pz Hx Hy Hz. unfold self_neighbour. cbn [lnx lny lnz lpx lpy lpz].
+  assert (A : forall p v, (p = true -> v <> 1) -> p && (v =? 1) = false).
+  { intros p v H. destruct p; simpl; auto. apply Nat.eqb_neq; auto. }
+  rewrite (A px x Hx), (A py y Hy), (A pz z Hz). reflexivity.
+Qed.
+
 (* positive statement, conditional on "no periodic axis has exactly one subgrid", layouts up to BOUND^3 *)
 Theorem make_graph_wf_partial : forall Y,
   1 <= lnx Y <= BOUND -> 1 <= lny Y <= BOUND -> 1 <= lnz Y <= BOUND ->
   (lpx Y = true -> lnx Y <> 1) -> (lpy Y = true -> lny Y <> 1) -> (lpz Y = true -> lnz Y <> 1) ->
   wf (make_graph Y).
 Proof.
-  intros [x y z px py pz] Hx Hy Hz Px Py Pz. simpl in *.
-  pose proof check_upto_bound as C. unfold check_upto in C. rewrite forallb_forall in C.
-  specialize (C _ (In_layouts_upto BOUND x y z px py pz Hx Hy Hz)).
-  unfold check_layout in C. apply orb_true_iff in C. destruct C as [C|C].
-  - exfalso. unfold self_neighbour in C. simpl in C.
-    repeat (apply orb_true_iff in C; destruct C as [C|C]);
-      apply andb_true_iff in C; destruct C as [C1 C2]; apply Nat.eqb_eq in C2; subst; tauto.
-  - apply wf_check_sound; auto.
+  intros [x y z px py pz] Hx Hy Hz Px Py Pz. cbn [lnx lny lnz lpx lpy lpz] in *.
+  apply (check_upto_sound BOUND check_upto_bound).
+  - apply In_layouts_upto; auto.
+  - apply no_self; auto.
 Qed.
 
 (* ------------------------------------------------------------------ defect D2 *)
@@ -49,7 +61,7 @@ Definition Y_self : layout := mkLayout 1 2 2 true false false.
 
 Lemma self_task_same_lock : dep0 (tk (make_graph Y_self) 1) = Some 0 /\ dep1 (tk (make_graph Y_self) 1) = Some 0
   /\ 1 < length (make_graph Y_self) /\ kind (tk (make_graph Y_self) 1) = GN.
-Proof. vm_compute. repeat split; auto. Qed.
+Proof. repeat split; try (vm_compute; reflexivity). vm_compute. lia. Qed.
 
 Theorem self_neighbour_refuted : exists Y, 1 <= lnx Y /\ 1 <= lny Y /\ 1 <= lnz Y /\ ~ wf (make_graph Y).
 Proof.
